@@ -3477,7 +3477,7 @@ FINDINGS = [
     {"status": "fixed", "key": "crash:norm.minus_normal_definite_integral", "commit": "b74ba79",
      "what": "norm.minus_normal_definite_integral called to_poly without conds: Equation raised TypeError instead of declining "
              "(e.g. rewriting (INT x:[0,1]. x^2) - (INT y:[0,1]. y) to INT x:[0,1]. (x - 1) * x)"},
-    {"status": "fixed", "key": "history:replace-substitution-under-open-integral", "commit": "fixes/C19-12.patch",
+    {"status": "fixed", "key": "history:replace-substitution-under-open-integral", "commit": "bc85788",
      "what": "ReplaceSubstitution rewrote the bound variable of an integral still to be evaluated: (x + 3) ^ 3 / 3 + (INT u. 1/2 * u ^ 2) "
              "became ... + (INT u. 1/2 * (2 * x + 1) ^ 2) (value changed)"},
     {"status": "known", "key": "normalize-idempotent:second-pass-changes-form-only",
